@@ -5,6 +5,9 @@ mod util;
 #[macro_use]
 #[path = "../../vmh/src/types.rs"]
 mod types;
+mod mk;
+#[path = "../../vmh/src/guest.rs"]
+mod guest;
 mod xgrant;
 mod xctor;
 
@@ -22,6 +25,7 @@ fn main() {
     let mut exec: Box<dyn util::Exec> = match args[1].as_str() {
         "xgrant" => Box::new(xgrant::XGrantExec::default()),
         "xctor" => Box::new(xctor::XCtorExec::default()),
+        "guest" => Box::new(guest::GuestExec::default()),
         m => {
             eprintln!("unknown module {m}");
             std::process::exit(2);
